@@ -68,7 +68,7 @@ func main() {
 		}
 	}
 	types := []string{"ca", "signingAuthority", "tsa"}
-	n := r.N(1500, 40000)
+	n := r.N(1500, 100000)
 	lib.Parallel(n, 16, func(ci int) {
 		rng := r.Rand(fmt.Sprintf("cfg-%d", ci))
 		base := lib.TempDir("c03")
